@@ -47,7 +47,7 @@ type Row struct {
 
 // Case is one evaluated input (also the replay format).
 type Case struct {
-	Path    string            `json:"path"` // value | invoice-issue | invoice-value | invoice-override | invoice-stale | invoice-mixed | raw
+	Path    string            `json:"path"` // value | invoice-issue | invoice-value | invoice-override | invoice-stale | invoice-mixed | rows | recalc | raw
 	Country string            `json:"regime,omitempty"`
 	Other   string            `json:"other_regime,omitempty"` // invoice-mixed (mixed.go): the country written on one row of a document of `regime`
 	Cat     string            `json:"category,omitempty"`
@@ -57,6 +57,8 @@ type Case struct {
 	Ext     map[string]string `json:"ext,omitempty"`
 	Rows    []Row             `json:"rows,omitempty"`
 	Undef   bool              `json:"undefined_key,omitempty"` // a key derived from a defined one that the tables do not define
+	Doc     *DocSpec          `json:"doc,omitempty"`           // rows | recalc (rows.go): the layout of the document
+	Edit    *EditSpec         `json:"edit,omitempty"`          // recalc: what is changed in memory between two calculations
 }
 
 func (c Case) key() string {
@@ -436,6 +438,8 @@ func Run(c *core.Ctx) int {
 	} else {
 		cases = enumerate(c)
 		cases = append(cases, mixedCases(c)...)
+		cases = append(cases, rowsCases(c)...)
+		cases = append(cases, recalcCases(c)...)
 		cases = append(cases, synthetic(c)...)
 	}
 	var evs []*evaluated
@@ -444,23 +448,33 @@ func Run(c *core.Ctx) int {
 			evs = append(evs, e)
 		}
 	}
+	// every request is a pure question about the regenerated tables: each distinct one is asked once
 	var reqs []string
+	asked := map[string]int{}
 	for _, e := range evs {
-		reqs = append(reqs, e.Reqs...)
+		for _, rq := range e.Reqs {
+			if _, ok := asked[rq]; !ok {
+				asked[rq] = len(reqs)
+				reqs = append(reqs, rq)
+			}
+		}
 	}
-	resp, err := c.Model(reqs)
+	uresp, err := c.Model(reqs)
 	if err != nil {
 		c.TieBroken("drive:C12/model", "the Lean driver failed: "+err.Error(), nil)
 		return c.Finish(rule, nil)
 	}
-	i := 0
+	c.Count("model:distinct requests", int64(len(reqs)))
 	answer := map[string]string{}
+	for rq, k := range asked {
+		answer[rq] = uresp[k]
+	}
 	for _, e := range evs {
-		e.judge(resp[i : i+len(e.Reqs)])
+		resp := make([]string, len(e.Reqs))
 		for k, rq := range e.Reqs {
-			answer[rq] = resp[i+k]
+			resp[k] = answer[rq]
 		}
-		i += len(e.Reqs)
+		e.judge(resp)
 	}
 	tableChecks(c)
 	// the rate in force is a function of the published tables: after the library has handled
@@ -511,6 +525,8 @@ func prepare(c *core.Ctx, cs Case) *evaluated {
 		return prepareValue(c, cs)
 	case "invoice-mixed":
 		return prepareMixed(c, cs)
+	case "rows", "recalc":
+		return prepareRows(c, cs)
 	default:
 		return prepareInvoice(c, cs)
 	}
